@@ -787,6 +787,75 @@ def rule_R11(res, prog):
                             return True
                 return False
             return t
+        def _reach_from(src, fn=fn):
+            seen_, st = set(), [src]
+            while st:
+                q = st.pop()
+                for sc in fn.bmap[q]["succ"]:
+                    if sc.get("b") is not None and sc["b"] not in seen_:
+                        seen_.add(sc["b"])
+                        st.append(sc["b"])
+            return seen_
+        if not any(e[0] in _reach_from(e[0]) for e in exp):
+            # The verdict-to-alert mapping sits in a HELPER (no loop of its own around the expiry store): the same two questions
+            # are asked at every call of it that is on a loop of the caller, the call standing for `ssl->err = <any alert the
+            # helper stores>`.
+            sites = []
+            for g in prog.functions.values():
+                if not g.blocks:
+                    continue
+                for b in g.blocks:
+                    for i, ln, x in cu.block_exprs(b):
+                        for m in walk(x):
+                            if m.get("k") == "call" and m.get("fn"):
+                                tq = prog.resolve_call(g, m["fn"])
+                                if tq is not None and tq.qname == fn.qname:
+                                    sites.append((g, b["id"], ln, x))
+            looped = []
+            for (g, cb, ln, cx) in sites:
+                seen_, st = set(), [cb]
+                while st:
+                    q = st.pop()
+                    for sc in g.bmap[q]["succ"]:
+                        if sc.get("b") is not None and sc["b"] not in seen_:
+                            seen_.add(sc["b"])
+                            st.append(sc["b"])
+                if cb in seen_:
+                    looped.append((g, cb, ln, cx))
+            if not looped:
+                raise AnalysisBroken("C04.R11: %s() stores certificate_expired outside any loop and is not called on a loop: the verdict "
+                                     "scan has a shape the rule does not know" % fn.name)
+            ovs = sorted(set(o[2] for o in others))
+            for (g, cb, ln, cx) in looped:
+                n += 1
+                worst, cont = None, None
+                for sc in g.bmap[cb]["succ"]:
+                    if sc.get("b") is None:
+                        continue
+                    for ov in ovs:
+                        p_ = cu.escapes_const(g, sc["b"], lambda x: False, target_expr=lambda x, cx=cx: x is cx,
+                                              init_env={"ssl->err": ov}, track_mem=("ssl->err",), call_kills=kills_in(g))
+                        if p_ is not None and worst is None:
+                            worst = (ov, p_)
+                    if cont is None:
+                        cont = cu.escapes_const(g, sc["b"], lambda x: False, target_expr=lambda x, cx=cx: x is cx,
+                                                init_env={"ssl->err": EXP}, track_mem=("ssl->err",), call_kills=kills_in(g))
+                f_ = None
+                if worst is not None:
+                    f_ = Finding(PROP, rid, g.name, "certificate_expired replaces another alert of the chain",
+                                 "%s:%s %s(): after %s() stored the alert %d the call is reached again (via lines %s) and may store "
+                                 "certificate_expired over it: a callback that tolerates an expired certificate and nothing else is shown "
+                                 "`expired` for a chain that also failed otherwise" % (g.relfile, ln, g.name, fn.name, worst[0], [q[1] for q in worst[1][-6:]]),
+                                 file=g.relfile, line=ln)
+                res.instance(rid, "%s:%s (via %s) certificate_expired never overwrites another alert" % (g.name, ln, fn.name), worst is None, finding=f_)
+                f_ = None
+                if cont is None:
+                    f_ = Finding(PROP, rid, g.name, "the chain scan stops at certificate_expired",
+                                 "%s:%s %s(): once %s() has stored certificate_expired the call is not reached again (the loop's exit test leaves "
+                                 "on any alert): an expired leaf under an unknown root is presented to the callback as `expired` only, and a "
+                                 "callback tolerating just that accepts an unanchored chain" % (g.relfile, ln, g.name, fn.name), file=g.relfile, line=ln)
+                res.instance(rid, "%s:%s (via %s) the verdict scan continues past certificate_expired" % (g.name, ln, fn.name), cont is not None, finding=f_)
+            continue
         for (ebid, eln, _, _x) in exp:
             n += 1
             # (a) no other alert is replaced by the expiry
